@@ -103,7 +103,7 @@ CHECKS["C09"] = {
     "technique": "exhaustive bounded enumeration of sub-graph bodies x input histories, each wired inlined / nested / nested-in-nested / "
                  "depth 3 on the real engine; differential between variants + reference interpreter + lifecycle monitor",
     "design_ref": "DESIGN.md 2/C09",
-    "parts": [{"name": "nested", "exe": "c09_nested", "sources": ["c09_nested.cpp"], "sub": "c09", "shards": 16}],
+    "parts": [{"name": "nested", "exe": "c09_nested", "sources": ["c09_nested.cpp"], "sub": "c09", "shards": {"quick": 16, "thorough": 256}}],
     "rule": "every sub-graph body of <= N statements over {self-scheduling ticker with period 1|2|3 (2 emissions), stateful accumulator, "
             "1- and 2-input compute, pass-through of a boundary input}, inputs from the two boundary ports or earlier statements, no dead "
             "statement; wired through wire<G> (inlined), nested_<G>, nested_ in nested_, and depth 3; x every tick pattern of the two outer "
@@ -127,7 +127,7 @@ CHECKS["C02"] = {
     "technique": "exhaustive enumeration of wake-up-requesting programs x tick histories x run windows on the real simulation executor, each "
                  "run compared step by step with a discrete-event reference model (cycle-time set, per-node evaluation times, next_scheduled_time)",
     "design_ref": "DESIGN.md 2/C02",
-    "parts": [{"name": "wakeups", "exe": "c09_nested", "sources": ["c09_nested.cpp"], "sub": "c02", "shards": 16}],
+    "parts": [{"name": "wakeups", "exe": "c09_nested", "sources": ["c09_nested.cpp"], "sub": "c02", "shards": {"quick": 16, "thorough": 256}}],
     "rule": "every program of 1-2 scripted self-scheduling sources (tick exactly at their history cycles through NodeScheduler) followed by <= K "
             "statements over {ticker (period,count) in {(1,3),(2,2),(3,2),(5,2)}, 1/2-input compute, stateful accumulator, nested_ of five bodies "
             "holding tickers at depth 1 and 2, far timers and consecutive-step timers}; x every tick pattern of the sources over T cycles; x run "
@@ -150,7 +150,7 @@ CHECKS["C08"] = {
     "technique": "exhaustive bounded enumeration of writer histories (with repeated values) over feedback topologies on the real engine; "
                  "differential oracle: reader probe == writer probe shifted by exactly one step",
     "design_ref": "DESIGN.md 2/C08",
-    "parts": [{"name": "feedback", "exe": "c08_feedback", "sources": ["c08_feedback.cpp"], "shards": 16}],
+    "parts": [{"name": "feedback", "exe": "c08_feedback", "sources": ["c08_feedback.cpp"], "shards": {"quick": 16, "thorough": 256}}],
     "rule": "topologies: open loop TS (with and without declared initial value), TSS, TSD, a fixed TSL<TS<Int>,2> and a TSB{a,b} whose elements get their first values in different cycles or never; self loop out=ts+fb with an active reader (window of 14 "
             "steps) and with a passive reader (must go quiescent); the same two inside nested_; two independent loops ticking together; a "
             "mutual loop (active / passive); a TSS feedback bound to an if_then_else-selected writer. Histories: every sequence over T cycles of "
@@ -174,7 +174,7 @@ CHECKS["C03"] = {
     "technique": "exhaustive enumeration of input-policy combinations x passive-marker masks x tick histories on real static nodes; "
                  "complete evaluation log compared with the activation/validity reference rule",
     "design_ref": "DESIGN.md 2/C03",
-    "parts": [{"name": "gate", "exe": "c03_gate", "sources": ["c03_gate.cpp"], "shards": 16}],
+    "parts": [{"name": "gate", "exe": "c03_gate", "sources": ["c03_gate.cpp"], "shards": {"quick": 16, "thorough": 256}}],
     "rule": "probe node types: all 36 combinations of InputActivity {Active,Passive} x InputValidity {Valid,Unchecked,AllValid} on two TS inputs; "
             "the 8 activity combinations on three inputs (validities Valid,Unchecked,Valid); parameter-order variants with State / Scalar / "
             "NodeScheduler listed before the inputs; one structural TSL input under Valid/AllValid/Unchecked; a self-scheduling probe; each under "
@@ -199,7 +199,7 @@ CHECKS["C05"] = {
     "technique": "exhaustive enumeration of mutation histories on real collection outputs; every tick's typed value/added/removed/modified view "
                  "compared with a reference container (std::set/map/deque) and its net per-cycle change",
     "design_ref": "DESIGN.md 2/C05",
-    "parts": [{"name": "coll", "exe": "c05_coll", "sources": ["c05_coll.cpp"], "sub": "c05", "shards": 16},
+    "parts": [{"name": "coll", "exe": "c05_coll", "sources": ["c05_coll.cpp"], "sub": "c05", "shards": {"quick": 16, "thorough": 256}},
               {"name": "window", "exe": "c05_window", "sources": ["c05_window.cpp"], "shards": 16}],
     "rule": _COLL_RULE + "Oracle (C05): at every tick the typed value equals the reference container; added/removed are exactly the NET change of the "
             "cycle (so added and removed are disjoint, added are present, removed are absent and were present, cancelling mutations leave no trace); "
@@ -228,7 +228,7 @@ CHECKS["C04"] = {
     "technique": "exhaustive enumeration of write histories on real outputs with producer and consumer views sampled in EVERY cycle; flags compared "
                  "with a reference write log and consumers compared with the producer",
     "design_ref": "DESIGN.md 2/C04",
-    "parts": [{"name": "flags", "exe": "c05_coll", "sources": ["c05_coll.cpp"], "sub": "c04", "shards": 16},
+    "parts": [{"name": "flags", "exe": "c05_coll", "sources": ["c05_coll.cpp"], "sub": "c04", "shards": {"quick": 16, "thorough": 256}},
               {"name": "forward", "exe": "c04_forward", "sources": ["c04_forward.cpp"], "shards": 16}],
     "rule": _COLL_RULE + "Oracle (C04), evaluated in every cycle (written or not): modified is true iff the reference performed an effective write in "
             "that cycle (false when nothing was written); valid from the first write until an explicit invalidation; last_modified_time equals the "
@@ -258,7 +258,7 @@ CHECKS["C20"] = {
     "technique": "exhaustive enumeration of mutation histories per shape; the real record node's buffer is replayed by the real replay node into a "
                  "second graph and re-recorded; buffers and tick streams of the two runs are compared cycle by cycle",
     "design_ref": "DESIGN.md 2/C20",
-    "parts": [{"name": "roundtrip", "exe": "c20_replay", "sources": ["c20_replay.cpp"], "shards": 16}],
+    "parts": [{"name": "roundtrip", "exe": "c20_replay", "sources": ["c20_replay.cpp"], "shards": {"quick": 16, "thorough": 256}}],
     "rule": "shapes: TS<Int>, TS<Str>, SIGNAL, TSS<Int>, TSD<Int,TS<Int>>, TSD<Int,TSS<Int>>, TSD<Int,TSB{a,b}>, TSL<TS<Int>,2>, TSL<TSS<Int>,2>, TSL<TSB{a,b},2> and TSL<TSL<TS<Int>,2>,2> (elements completed one member at a time), "
             "TSB{a,b}, TSB{d:TSD<Int,TS<Int>>, x:TS<Int>}, TSW<Int,3,2>; histories: every sequence over T cycles of lists of <= L mutations from the "
             "shape's alphabet (gaps, removals, child-only ticks, same-cycle cancellations, bulk growth). Graph 1: scripted writer -> record + probe. "
@@ -280,7 +280,7 @@ CHECKS["C10"] = {
     "technique": "exhaustive enumeration of key histories x mapped-function vocabulary on the real map_ node; differential oracle: every key life "
                  "is re-run ALONE on the real engine and the map output must equal the per-key alone runs",
     "design_ref": "DESIGN.md 2/C10",
-    "parts": [{"name": "map", "exe": "c10_map", "sources": ["c10_map.cpp"], "shards": 16}],
+    "parts": [{"name": "map", "exe": "c10_map", "sources": ["c10_map.cpp"], "shards": {"quick": 16, "thorough": 256}}],
     "rule": "input: scripted TSD<Int,TS<Int>> writer, every sequence over T cycles of lists of <= L operations from {set k=v for 2-3 keys, erase k, "
             "clear, bulk add of 9 keys (slot-store growth)}; functions: stateless node, stateful counter, key-consuming (key*100+ts), late-valid "
             "(output only from its 2nd tick), 2-node chain, self-scheduling debounce (each input re-arms one tagged deadline 2-4 steps ahead), "
@@ -334,7 +334,7 @@ CHECKS["C12"] = {
     "technique": "exhaustive enumeration of key/input histories x branch tables x default/reload options on the real switch_ node; differential "
                  "oracle: every branch life is re-run ALONE on the real engine and the switch output sampled every cycle must equal it",
     "design_ref": "DESIGN.md 2/C12",
-    "parts": [{"name": "switch", "exe": "c12_switch", "sources": ["c12_switch.cpp"], "shards": 16}],
+    "parts": [{"name": "switch", "exe": "c12_switch", "sources": ["c12_switch.cpp"], "shards": {"quick": 16, "thorough": 256}}],
     "rule": "per cycle: key tick in {-,1,2,8,9} (8 and 9 match no case) x input tick or not, all 5^T x 2^T histories; tables: {1: stateful counter, "
             "2: doubler, default: counter after doubler}, {1: self-scheduling debounce (+2), 2: counter}, {1: key-consuming, 2: counter}, TSS-output "
             "table {1: accumulate into the set, 2: single-element set}; each with/without default branch and with/without reload(). Oracle: lives "
@@ -364,7 +364,7 @@ CHECKS["C13"] = {
     "technique": "exhaustive bounded enumeration of selector x target-operation histories over reference-producing programs on the real engine; "
                  "oracle = reference selection model + a checker-side copy maintained from the deltas the consumer sees",
     "design_ref": "DESIGN.md 2/C13",
-    "parts": [{"name": "ref", "exe": "c13_ref", "sources": ["c13_ref.cpp"], "shards": 16}],
+    "parts": [{"name": "ref", "exe": "c13_ref", "sources": ["c13_ref.cpp"], "shards": {"quick": 16, "thorough": 256}}],
     "rule": "programs: if_then_else(cond,A,B) with one consumer / two consumers / passed through nested_<pass-through> / switch_ with pass-through "
             "branches; target shapes TS<Int>, TSS<Int>, TSD<Int,TS<Int>>; per cycle selector tick in {-,T,F} x one operation of a 3-4 symbol alphabet "
             "on A x one on B (ticks, removals, no-ops), every history over T cycles. Oracle: consumer evaluated iff the current target ticks or the "
@@ -390,7 +390,7 @@ CHECKS["C14"] = {
     "technique": "exhaustive fault injection: every single (node, phase, occurrence) fault and every ordered pair, x cleanup_on_error on/off, on "
                  "five program shapes; a ledger of hook calls per node instance and of lifecycle-observer events decides the discipline",
     "design_ref": "DESIGN.md 2/C14",
-    "parts": [{"name": "faults", "exe": "c14_lifecycle", "sources": ["c14_lifecycle.cpp"], "shards": 16}],
+    "parts": [{"name": "faults", "exe": "c14_lifecycle", "sources": ["c14_lifecycle.cpp"], "shards": {"quick": 16, "thorough": 256}}],
     "rule": "programs: flat chain of 4; nested_ with two inner nodes; map_ over a dictionary with key churn (add 2, add 1, erase 1, update) feeding a "
             "reduce; switch_ with a branch change; reduce with an instrumented combiner node; try_except_ around a value sub-graph and around a SINK sub-graph "
             "(evaluate faults inside the try_except_ child are captured, C15's subject, and are not injected). Faults: phase in {start, evaluate, stop} x occurrence "
@@ -413,7 +413,7 @@ CHECKS["C15"] = {
     "technique": "exhaustive enumeration of throw sets x input histories over error-capturing programs; differential oracle against the fault-free "
                  "run of the same program and inputs",
     "design_ref": "DESIGN.md 2/C15",
-    "parts": [{"name": "capture", "exe": "c15_errors", "sources": ["c15_errors.cpp"], "shards": 16}],
+    "parts": [{"name": "capture", "exe": "c15_errors", "sources": ["c15_errors.cpp"], "shards": {"quick": 16, "thorough": 256}}],
     "rule": "programs: a throwing node under exception_time_series capture; the same with a self-scheduling (timer) node; try_except_ around a "
             "one-node child, a two-node child (failing node at index 1) and a three-node child; map_ with keyed capture over a 3-key dictionary with "
             "a two-node child. Every non-empty input tick pattern over 5 cycles x every subset of cycles in which the node throws (map: every "
